@@ -7,6 +7,7 @@ import (
 	"bufio"
 	"fmt"
 	"io"
+	"math"
 	"os"
 	"path/filepath"
 	"regexp"
@@ -20,6 +21,10 @@ func readRules(input io.Reader) ([]rule, error) {
 	rules := make([]rule, len(defaultExclusions))
 	copy(rules, defaultExclusions)
 	scanner := bufio.NewScanner(input)
+	// No limit on the length of a line: with the default limit of 64 KiB a
+	// single longer line, even a comment, made the whole file unreadable and
+	// the caller fall back to the default rules, dropping every user rule.
+	scanner.Buffer(make([]byte, 0, bufio.MaxScanTokenSize), math.MaxInt)
 	scanner.Split(bufio.ScanLines)
 	currentRuleIndex := len(defaultExclusions) - 1
 
